@@ -10,6 +10,7 @@ import sys
 from pydantic import BaseModel
 
 from rv import core, sched
+from rv.faults import EXC_CLASSES, make_exception
 
 PID = "C18"
 LEVEL = "exploration"
@@ -61,6 +62,16 @@ INVALID_KINDS = ["invalid_type", "missing", "garbage", "empty", "other_schema", 
 
 class Boom(Exception):
     pass
+
+
+_INJECTED = []
+
+
+def inject(ctx, offset, message):
+    """build an exception of the shared fault family and remember the INSTANCE: only that very object may come back out of a loop"""
+    e = make_exception((ctx.case if isinstance(ctx.case, int) else 0) + offset, message)
+    _INJECTED.append(e)
+    return e
 
 
 class Runaway(BaseException):
@@ -216,7 +227,7 @@ def case_heal(ctx, max_retries, prog, decay, plain=False, prior_twin=False, sche
         tok = prog[k] if k < len(prog) else prog[-1] if len(prog) == 1 else prog[k % len(prog)]
         if tok == "raise":
             outs.append(None)
-            raise Boom("generator failed at attempt %d" % k)
+            raise inject(ctx, 0, "generator failed at attempt %d" % k)
         if tok == "echo":
             o = error_context if error_context is not None else "no error yet"
         elif tok == "grow":
@@ -261,7 +272,10 @@ def case_heal(ctx, max_retries, prog, decay, plain=False, prior_twin=False, sche
     result = None
     try:
         result = loop.heal("make an item")
-    except Boom as e:
+    except tuple(EXC_CLASSES) as e:
+        if not any(e is x for x in _INJECTED[-50:]):
+            ctx.violation("heal-raises", "heal() raised %s on its own" % type(e).__name__, dict(desc, error=repr(e)))
+            return
         raised = e
     except Runaway as e:
         ctx.violation("heal-call-budget", "healing loop ran away: %s with max_retries=%d" % (e, max_retries), desc)
@@ -370,7 +384,7 @@ def case_swarm(ctx, max_regen, max_steps, prog, threshold):
                 raise Runaway("worker %d stepped %d times" % (self.idx, k + 1))
             if prog.get("raise_step") == (self.idx, k):
                 steps[self.idx].append(None)
-                raise Boom("worker step failed")
+                raise inject(ctx, 1, "worker step failed")
             if prog.get("marker_at") == (self.idx, k):
                 o = "result %d: %s" % (k, prog["marker"])
             else:
@@ -405,7 +419,7 @@ def case_swarm(ctx, max_regen, max_steps, prog, threshold):
         if idx > max_regen + HARD_CAP:
             raise Runaway("factory called %d times" % (idx + 1))
         if prog.get("raise_factory") == idx:
-            raise Boom("factory failed")
+            raise inject(ctx, 2, "factory failed")
         steps[idx] = []
         return W(name, idx)
 
@@ -413,7 +427,7 @@ def case_swarm(ctx, max_regen, max_steps, prog, threshold):
         i = len(summarizer_calls)
         summarizer_calls.append(i)
         if prog.get("raise_summarizer") == i:
-            raise Boom("summarizer failed")
+            raise inject(ctx, 3, "summarizer failed")
         return ["hint %d" % i]
 
     swarm = RegenerativeSwarm(worker_factory=factory, summarizer=summarizer, entropy_threshold=threshold,
@@ -424,7 +438,10 @@ def case_swarm(ctx, max_regen, max_steps, prog, threshold):
     raised = False
     try:
         result = swarm.supervise("task")
-    except Boom:
+    except tuple(EXC_CLASSES) as e:
+        if not any(e is x for x in _INJECTED[-50:]):
+            ctx.violation("swarm-raises", "supervise() raised %s on its own" % type(e).__name__, dict(desc, error=repr(e)))
+            return
         raised = True
     except Runaway as e:
         mech = "swarm-step-budget" if "stepped" in str(e) else "swarm-spawn-budget"
@@ -501,7 +518,7 @@ def case_tool(ctx, max_iter, prog):
                 raise Runaway("complete_with_tools called %d times" % r)
             log["prompts"].append(len(prompt))
             if prog.get("provider_raises_round") == r:
-                raise Boom("provider failed in round %d" % r)
+                raise inject(ctx, 4, "provider failed in round %d" % r)
             cpr = prog["calls_per_round"]
             if r <= len(cpr):
                 ncalls = cpr[r - 1]
@@ -532,7 +549,7 @@ def case_tool(ctx, max_iter, prog):
         log["tool_runs"] += 1
         ctx.count("tool_runs")
         if prog.get("raising_tool"):
-            raise Boom("tool failed")
+            raise inject(ctx, 5, "tool failed")
         if prog.get("reentrant_tool"):
             # a "sub-agent" tool: runs its own (short) tool loop on the same nucleus while the outer one is in progress
             ctx.count("reentrant_tool_loops")
@@ -549,7 +566,10 @@ def case_tool(ctx, max_iter, prog):
     raised = False
     try:
         r = nucleus.transcribe_with_tools("question", mito, max_iterations=max_iter, auto_execute=auto)
-    except Boom:
+    except tuple(EXC_CLASSES) as e:
+        if not any(e is x for x in _INJECTED[-50:]):
+            ctx.violation("tool-loop-raises", "transcribe_with_tools raised %s on its own" % type(e).__name__, dict(desc, error=repr(e)))
+            return
         raised = True
     except Runaway as e:
         ctx.violation("tool-round-budget", "tool loop ran away: %s with max_iterations=%d" % (e, max_iter), desc)
